@@ -188,10 +188,12 @@ def c06justice : Drv where
 
 /-! ### c06scope: the per-FundingScope commitment data of Model/ScopeData.lean (pending splices) -/
 
-/-- `funding/txid/htlc,…|-` -/
+/-- `funding/txid/htlc,…|-[/commitment number/per-commitment point id/feerate]` -/
 def ctxOf (s : String) : Option ScopeData.CTx :=
   match splitOnChar s '/' with
   | [f, t, hs] => (listOf htlcOf hs).map fun l => { funding := nat! f, txid := nat! t, htlcs := l }
+  | [f, t, hs, n, p, fr] => (listOf htlcOf hs).map fun l =>
+      { funding := nat! f, txid := nat! t, htlcs := l, num := nat! n, point := nat! p, feerate := nat! fr }
   | _ => none
 
 def showHtlcs (l : List Htlc) : String :=
@@ -211,6 +213,7 @@ def showScopes (m : ScopeData.Mon) : String :=
           scommit <funding/txid/htlcs> …        update_counterparty_commitment_data (one transaction per scope)
           sreneg <funding/txid/htlcs>           renegotiated_funding
           spromote <funding>                    promote_funding                                  → `ok` | `err`
+          sverify <funding/txid/htlcs/n/p/f> …  verify_matching_commitment_transactions (state unchanged) → `ok` | `err <message>`
           sdump                                 → every scope's stored lists
           sconfirm <funding> <txid> <sat,…>     → output indices of the HTLC claims when that commitment confirms -/
 def c06scope : Drv where
@@ -230,6 +233,10 @@ def c06scope : Drv where
       | some alt => app (ScopeData.step m (.reneg alt))
       | none => (m, "bad-op")
     | ["spromote", f] => app (ScopeData.step m (.promote (nat! f)))
+    | "sverify" :: txs =>
+      match txs.mapM ctxOf with
+      | some ts => (m, match ScopeData.verifyMatching m ts with | none => "ok" | some e => "err " ++ e.replace " " "_")
+      | none => (m, "bad-op")
     | ["sdump"] => (m, showScopes m)
     | ["sconfirm", f, t, outs] =>
       let tx : List (TxOut Unit) := (splitOnChar outs ',').map fun v => { sat := nat! v, spk := .htlc }
